@@ -7,5 +7,12 @@ import SpgProofs.Properties.C09
 #print axioms Spg.C09.drawSource_some
 #print axioms Spg.C09.run_fault_no_result
 #print axioms Spg.C09.run_deterministic
+#print axioms Spg.C09.wordOfBytes_bytesOfWord
+#print axioms Spg.C09.readFull_plan_subset
+#print axioms Spg.C09.readWord_plan_subset
+#print axioms Spg.C09.readFull_no_bytes
+#print axioms Spg.C09.readWord_no_bytes
+#print axioms Spg.C09.drawSource_words
+#print axioms Spg.C09.runS_eq_run
 #print axioms Spg.C09.imports_ok
 #print axioms Spg.C09.rand_sites
